@@ -140,6 +140,13 @@ CHECKS = {
         note="Decides the distribution of each update through the parameters of the draw (deterministic), not through sampled frequencies; float32 sampler state bounds the tolerances (worst deviation observed ~1e-5 posterior sd, threshold 2e-3); default model options; self-paired drugs and treatment-free spaces excluded.",
         technique="online trace monitor: intercepted draws checked against independently derived full conditionals",
     ),
+    "C19": dict(
+        cat="fault_enumeration",
+        text="For every listed configuration (mode, batch size 1-4, 2-7 plates, chains/chunks, publication-order seed) the real script is run crash-free against a pipeline stub and then once per failpoint hit with a kill at that hit: every executed line of the script (sys.monitoring), before/after each mkdir inside makedirs, between the unlinks of rmtree, after each directory and file the stub publishes in an order consistent with the .nf process DAG. After each kill the script is rerun (deleting exactly the directory it names) until the simulation is complete and the launch log, deletion log and final tree are checked off-line against the crash-free run; continuations from an identical directory tree are explored once; pairs of kills are sampled (dense for small configurations).",
+        ref="4/C19",
+        note="The real nextflow is not installed: publication behaviour is the stub's stated assumption (DAG-consistent order, atomic per file). Kill = BaseException at the failpoint (the script has no handlers).",
+        technique="fault injection at every failpoint + offline checker over the recorded launch/deletion log against the crash-free run",
+    ),
 }
 
 NOT_BUILT_REASON = "check not built yet in this revision (planned, see DESIGN.md section 4)"
